@@ -408,6 +408,81 @@ theorem ensureParentDirs_shape (p : Bytes) {s s' : DState} {r : Except Exn Unit}
     exact ⟨⟨_, _, _, rfl⟩, ⟨[], by simp, by simp⟩, fun e he => (by cases he; rfl), fun _ _ h => h⟩
   · exact mkdirLoop_shape _ (dirPrefixes p) (dirPrefixes p) (fun _ h => h) h
 
+theorem apply_mkdir_lookup_ne {fs fs' : Fs} {a q : Bytes} (h : fs.apply (.mkdir a) = .ok fs') (hq : q ≠ a) :
+    fs'.lookup q = fs.lookup q := by
+  simp only [Fs.apply] at h
+  split at h
+  · cases h
+  · split at h
+    · cases h
+    · cases h; exact Fs.lookup_set_ne _ _ _ _ hq
+
+/-- the `mkdir` loop leaves every other name alone -/
+theorem mkdirLoop_frame (tol : Errno → Bool) (D : List Bytes) : ∀ (l : List Bytes), (∀ d ∈ l, d ∈ D) →
+    ∀ {s s' : DState} {r : Except Exn PUnit},
+    (forIn l PUnit.unit (fun d (_ : PUnit) => (do
+          let s ← get
+          let _ ← tryOp (FsOp.mkdir (absPath s d)) tol
+          pure (ForInStep.yield PUnit.unit) : DM (ForInStep PUnit)))).run s = (r, s') →
+    ∀ q, (∀ d ∈ D, q ≠ absPath s d) → s'.fs.lookup q = s.fs.lookup q
+  | [], _, s, s', r, h => by
+    rw [List.forIn_nil] at h; cases h
+    exact fun _ _ => rfl
+  | d :: l, hl, s, s', r, h => by
+    rw [List.forIn_cons, run_bind, run_bind, run_get] at h
+    simp only [] at h
+    rw [run_bind] at h
+    rcases ht : (tryOp (FsOp.mkdir (absPath s d)) tol).run s with ⟨r1, s1⟩
+    rw [ht] at h
+    intro q hq
+    rcases tryOp_cases ht with ⟨rfl, fs', hfs, rfl⟩ | ⟨hr1, rfl⟩
+    · simp only [run_pure] at h
+      have := mkdirLoop_frame tol D l (fun x hx => hl x (List.mem_cons_of_mem _ hx)) h q hq
+      rw [this]
+      exact apply_mkdir_lookup_ne hfs (hq d (hl d List.mem_cons_self))
+    · rcases hr1 with rfl | rfl
+      · simp only [run_pure] at h
+        exact mkdirLoop_frame tol D l (fun x hx => hl x (List.mem_cons_of_mem _ hx)) h q hq
+      · cases h; rfl
+
+/-- `ensure_parent_directories p` leaves every name which is not that of a directory prefix of `p` alone -/
+theorem ensureParentDirs_frame (p : Bytes) {s s' : DState} {r : Except Exn Unit} (h : (ensureParentDirs p).run s = (r, s')) :
+    ∀ q, (∀ d ∈ dirPrefixes p, q ≠ absPath s d) → s'.fs.lookup q = s.fs.lookup q := by
+  rw [ensureParentDirs_eq] at h
+  split at h
+  · cases h; exact fun _ _ => rfl
+  · exact mkdirLoop_frame _ (dirPrefixes p) (dirPrefixes p) (fun _ h => h) h
+
+theorem mem_dirPrefixes {p d : Bytes} (h : d ∈ dirPrefixes p) : ∃ i, i < p.length ∧ d = p.take i ∧ d ≠ [] := by
+  unfold dirPrefixes at h
+  simp only [List.mem_filter, List.mem_map, List.mem_range] at h
+  obtain ⟨⟨i, ⟨hi, _⟩, rfl⟩, hne⟩ := h
+  exact ⟨i, hi, rfl, by intro e; rw [e] at hne; simp at hne⟩
+
+/-- a directory prefix of a path is not the path -/
+theorem absPath_dirPrefix_ne (s : DState) {p d : Bytes} (h : d ∈ dirPrefixes p) : absPath s p ≠ absPath s d := by
+  obtain ⟨i, hi, rfl, hne⟩ := mem_dirPrefixes h
+  have hlen : (p.take i).length < p.length := by rw [List.length_take]; omega
+  have hhead : (p.take i).head? = p.head? := by
+    cases p with
+    | nil => simp at hi
+    | cons a l =>
+      cases i with
+      | zero => simp at hne
+      | succ j => simp
+  unfold absPath
+  rw [hhead]
+  split
+  · intro e; rw [← e] at hlen; omega
+  · intro e
+    have := congrArg List.length e
+    simp only [List.length_append] at this
+    omega
+
+/-- a name which is that of a regular file, or of nothing (D106: only then does `make_backup_for` act, whatever directories are made) -/
+def PlainAt (s : DState) (p : Bytes) : Prop :=
+  s.fs.lookup (absPath s p) = none ∨ ∃ b m, s.fs.lookup (absPath s p) = some (.file b m)
+
 /-- all the directories exist already (as whatever): `ensure_parent_directories` performs no operation -/
 theorem ensureParentDirs_run_exist (p : Bytes) (s : DState) (hp : p ≠ []) (hf : s.faultAt = none)
     (hex : ∀ d ∈ dirPrefixes p, (s.fs.lookup (absPath s d)).isSome = true) :
@@ -532,9 +607,70 @@ theorem makeWayFor_run (p : Bytes) (s : DState) :
   · simp only [↓reduceIte]
     rw [run_bind, run_get]
 
+/-- the name is that of something which is not a regular file (a directory, a device: what `-o` may name): it has no backup (D106) -/
+def notFileAt (s : DState) (p : Bytes) : Bool :=
+  (s.fs.stat (absPath s p)).isSome && !(match s.fs.stat (absPath s p) with | some (.file _ _) => true | _ => false)
+
+theorem notFileAt_of_file {s : DState} {p : Bytes} {b m} (h : s.fs.stat (absPath s p) = some (.file b m)) :
+    notFileAt s p = false := by unfold notFileAt; rw [h]; rfl
+theorem notFileAt_of_none {s : DState} {p : Bytes} (h : s.fs.stat (absPath s p) = none) :
+    notFileAt s p = false := by unfold notFileAt; rw [h]; rfl
+theorem notFileAt_of_lookup_file {s : DState} {p : Bytes} {b m} (h : s.fs.lookup (absPath s p) = some (.file b m)) :
+    notFileAt s p = false := notFileAt_of_file (Fs.stat_of_file h)
+theorem notFileAt_of_lookup_none {s : DState} {p : Bytes} (h : s.fs.lookup (absPath s p) = none) :
+    notFileAt s p = false := notFileAt_of_none (by unfold Fs.stat; rw [h])
+theorem notFileAt_false {s : DState} {p : Bytes} (h : notFileAt s p = false) :
+    s.fs.stat (absPath s p) = none ∨ ∃ b m, s.fs.stat (absPath s p) = some (.file b m) := by
+  unfold notFileAt at h
+  rcases hs : s.fs.stat (absPath s p) with _ | n
+  · exact .inl rfl
+  · cases n with
+    | file b m => exact .inr ⟨b, m, rfl⟩
+    | _ => rw [hs] at h; simp at h
+
+/-- `stat` in a tree which has grown (`ensure_parent_directories`: whatever was there is still there) -/
+theorem stat_none_of_grown {fs fs1 : Fs} (hkeep : ∀ q n, fs.lookup q = some n → fs1.lookup q = some n) {q : Bytes}
+    (h : fs1.stat q = none) : fs.stat q = none := by
+  unfold Fs.stat at h ⊢
+  rcases hl : fs.lookup q with _ | n
+  · rfl
+  · rw [hkeep _ _ hl] at h
+    cases n with
+    | symlink t =>
+      simp only at h ⊢
+      rcases hl2 : fs.lookup (if (parentOf q).isEmpty || t.head? == some SLASHB then t else parentOf q ++ [SLASHB] ++ t) with _ | n'
+      · rfl
+      · rw [hkeep _ _ hl2] at h; cases h
+    | _ => cases h
+
+/-- what is a regular file after `ensure_parent_directories` was a regular file or nothing before -/
+theorem notFileAt_of_grown_file {s : DState} {fs1 : Fs} (hkeep : ∀ q n, s.fs.lookup q = some n → fs1.lookup q = some n) {p b m}
+    (hfile : fs1.lookup (absPath s p) = some (.file b m)) : notFileAt s p = false := by
+  rcases hl : s.fs.lookup (absPath s p) with _ | n
+  · exact notFileAt_of_lookup_none hl
+  · have h1 := hkeep _ _ hl
+    rw [hfile] at h1
+    cases h1
+    exact notFileAt_of_lookup_file hl
+
+theorem PlainAt.notFileAt {s : DState} {p : Bytes} (h : PlainAt s p) : notFileAt s p = false := by
+  rcases h with h | ⟨b, m, h⟩
+  · exact notFileAt_of_lookup_none h
+  · exact notFileAt_of_lookup_file h
+
+/-- `ensure_parent_directories p` does not make `p` anything else than it was -/
+theorem PlainAt.ensureParentDirs {s s1 : DState} {r : Except Exn Unit} {p : Bytes} (h : (ensureParentDirs p).run s = (r, s1))
+    (hp : PlainAt s p) : PlainAt s1 p := by
+  have hfr := ensureParentDirs_frame p h (absPath s p) (fun d hd => absPath_dirPrefix_ne s hd)
+  obtain ⟨⟨fs', t, n, rfl⟩, -, -, hkeep⟩ := ensureParentDirs_shape p h
+  rcases hp with hp | ⟨b, m, hp⟩
+  · exact .inl (hfr.trans hp)
+  · exact .inr ⟨b, m, hkeep _ _ hp⟩
+
 theorem makeBackupFor_run (o : Options) (p : Bytes) (s : DState) :
     (makeBackupFor o p).run s =
-      if s.backedUp.contains (backupName o p) = true then (.ok (), s)
+      if notFileAt s p = true then (.ok (), s)
+      else if s.backedUp.contains (backupName o p) = true then (.ok (), s)
       else match (ensureParentDirs (backupName o p)).run { s with backedUp := s.backedUp ++ [backupName o p] } with
         | (.ok _, s1) =>
           if (s1.fs.stat (absPath s1 p)).isSome = true then
@@ -545,8 +681,18 @@ theorem makeBackupFor_run (o : Options) (p : Bytes) (s : DState) :
             | (.error e, s2) => (.error e, s2)
           else (doOp (.creat (absPath s1 (backupName o p)))).run s1
         | (.error e, s1) => (.error e, s1) := by
+  have h2 : (fsIsRegular p).run s =
+      (.ok (match s.fs.stat (absPath s p) with | some (.file _ _) => true | _ => false), s) := rfl
   unfold makeBackupFor opRename opCreat
-  simp only [run_bind, run_get, run_ite, run_set, run_fsExists, run_pure, makeWayFor_run]
+  rw [run_bind, run_fsExists]
+  dsimp only
+  rw [run_bind, h2]
+  dsimp only
+  show (if notFileAt s p = true then _ else _ : DM Unit).run s = _
+  cases notFileAt s p
+  rotate_left
+  · rfl
+  simp only [run_bind, run_get, run_ite, run_set, run_fsExists, run_pure, makeWayFor_run, Bool.false_eq_true, ↓reduceIte]
   cases hc : s.backedUp.contains (backupName o p)
   · simp only [Bool.not_false, Bool.false_eq_true, ↓reduceIte]
     rcases (ensureParentDirs (backupName o p)).run { s with backedUp := s.backedUp ++ [backupName o p] } with ⟨r, s1⟩
@@ -611,13 +757,104 @@ theorem run_opWrite (p b : Bytes) (s : DState) :
   unfold opWrite; rw [run_ite]; split
   · rfl
   · rw [run_bind, run_get]
+/-- the permissions of a node (`filesystem::get_permissions`) are `m` -/
+def hasMode (n : Option Node) (m : Nat) : Bool :=
+  match n with
+  | some (.file _ m') => m' == m | some (.dir m') => m' == m | some (.other m') => m' == m | _ => false
+
+/-- `opChmod`, exactly: a fault which hits it is tolerated if there is nothing to change (D105) -/
 theorem run_opChmod (p : Bytes) (m : Nat) (s : DState) :
+    (opChmod p m).run s =
+      if s.faultAt = some s.opCount then
+        (if hasMode (s.fs.stat (absPath s p)) m = true then .ok () else .error .systemError, { s with opCount := s.opCount + 1 })
+      else (doOp (.chmod (absPath s p) m)).run s := by
+  unfold opChmod
+  rw [run_bind, run_get]
+  dsimp only
+  simp only [beq_iff_eq, run_ite]
+  split
+  · rw [run_bind, run_set]
+    dsimp only
+    show (if hasMode (s.fs.stat (absPath s p)) m = true then Pure.pure () else throw Exn.systemError : DM Unit).run _ = _
+    cases hasMode (s.fs.stat (absPath s p)) m <;> rfl
+  · rfl
+
+theorem run_opChmod_nofault {p : Bytes} {m : Nat} {s : DState} (hf : s.faultAt = none) :
     (opChmod p m).run s = (doOp (.chmod (absPath s p) m)).run s := by
-  unfold opChmod; rw [run_bind, run_get]
+  rw [run_opChmod, if_neg (by rw [hf]; simp)]
+
+/-- the two ways `opChmod` differs from `doOp`: none when it returns with the trace longer, or throws -/
+theorem opChmod_cases {p : Bytes} {m : Nat} {s s' : DState} {r : Except Exn Unit} (h : (opChmod p m).run s = (r, s')) :
+    (doOp (.chmod (absPath s p) m)).run s = (r, s') ∨
+    (r = .ok () ∧ s' = { s with opCount := s.opCount + 1 } ∧ s.faultAt = some s.opCount ∧
+      hasMode (s.fs.stat (absPath s p)) m = true) := by
+  rw [run_opChmod] at h
+  split at h
+  · next hf =>
+    cases hm : hasMode (s.fs.stat (absPath s p)) m
+    · left
+      rw [hm] at h
+      rw [doOp_run, if_pos hf]
+      exact h
+    · right
+      rw [hm] at h
+      cases h
+      exact ⟨rfl, rfl, hf, rfl⟩
+  · exact .inl h
+
+/-- `opChmod` in any specification that holds of the `chmod` and lets a tolerated fault pass -/
+theorem Spec.opChmod {R E} (p : Bytes) (m : Nat) (h : ∀ a, Spec R E (PatchModel.doOp (.chmod a m)))
+    (htol : ∀ s, R s { s with opCount := s.opCount + 1 }) : Spec R E (opChmod p m) := by
+  constructor
+  · intro s a s' hr
+    rcases opChmod_cases hr with h1 | ⟨_, rfl, _, _⟩
+    · exact (h _).ok _ _ _ h1
+    · exact htol s
+  · intro s e s' hr
+    rcases opChmod_cases hr with h1 | ⟨h2, _⟩
+    · exact (h _).err _ _ _ h1
+    · cases h2
 theorem run_opRename (a b : Bytes) (s : DState) :
     (opRename a b).run s = (doOp (.rename (absPath s a) (absPath s b))).run s := by
   unfold opRename; rw [run_bind, run_get]
 
+
+/-! ### `first_name_of` (D104) -/
+
+theorem devNull_ne_nil : devNull ≠ [] := by decide +kernel
+
+/-- a real name comes first -/
+theorem firstNameOf_cons_of_name {n : Bytes} {ns : List Bytes} (h1 : n ≠ []) (h2 : n ≠ devNull) : firstNameOf (n :: ns) = n := by
+  unfold firstNameOf
+  have : (!n.isEmpty && n != devNull) = true := by
+    cases n with
+    | nil => exact absurd rfl h1
+    | cons a l => simpa using h2
+  rw [List.find?_cons, this]; rfl
+
+/-- `/dev/null` and a name which was left out are passed over -/
+theorem firstNameOf_cons_skip {n : Bytes} {ns : List Bytes} (h : n = [] ∨ n = devNull) : firstNameOf (n :: ns) = firstNameOf ns := by
+  unfold firstNameOf
+  have : (!n.isEmpty && n != devNull) = false := by
+    rcases h with rfl | rfl <;> simp
+  rw [List.find?_cons, this]
+
+/-- whatever it is, it is not `/dev/null` -/
+theorem firstNameOf_ne_devNull (ns : List Bytes) : firstNameOf ns ≠ devNull := by
+  unfold firstNameOf
+  rcases h : ns.find? (fun n => !n.isEmpty && n != devNull) with _ | n
+  · rw [h]; exact fun e => devNull_ne_nil e.symm
+  · rw [h]
+    have := List.find?_some h
+    simp only [Bool.and_eq_true, bne_iff_ne, ne_eq] at this
+    exact this.2
+
+/-- it is one of the names, or none (the empty name: the patch is skipped) -/
+theorem firstNameOf_mem (ns : List Bytes) : firstNameOf ns = [] ∨ firstNameOf ns ∈ ns := by
+  unfold firstNameOf
+  rcases h : ns.find? (fun n => !n.isEmpty && n != devNull) with _ | n
+  · rw [h]; exact .inl rfl
+  · rw [h]; exact .inr (List.mem_of_find?_eq_some h)
 
 /-! ### a walk through `do` blocks
 
@@ -753,8 +990,8 @@ theorem opCreat_trExt (h : ∀ p, A (.creat p)) (p : Bytes) : TrExt A (opCreat p
   unfold opCreat; spec_walk (good_ext A)
 theorem opWrite_trExt (h : ∀ p b, A (.write p b)) (p b : Bytes) : TrExt A (opWrite p b) := by
   unfold opWrite; spec_walk (good_ext A)
-theorem opChmod_trExt (h : ∀ p m, A (.chmod p m)) (p : Bytes) (m : Nat) : TrExt A (opChmod p m) := by
-  unfold opChmod; spec_walk (good_ext A)
+theorem opChmod_trExt (h : ∀ p m, A (.chmod p m)) (p : Bytes) (m : Nat) : TrExt A (opChmod p m) :=
+  Spec.opChmod p m (fun _ => TrExt.doOp (h _ _)) (fun _ => ExtR.of_eq rfl)
 theorem writeFile_trExt (h1 : ∀ p, A (.creat p)) (h2 : ∀ p b, A (.write p b)) (p b : Bytes) :
     TrExt A (writeFile p b) := by
   unfold writeFile; spec_walk (good_ext A)
@@ -878,7 +1115,8 @@ theorem readTty_quiet : Quiet readTty := by
 theorem createTemp_quiet : Quiet createTemp := by unfold createTemp; spec_walk good_quiet
 theorem opCreat_quiet (p : Bytes) : Quiet (opCreat p) := by unfold opCreat; spec_walk good_quiet
 theorem opWrite_quiet (p b : Bytes) : Quiet (opWrite p b) := by unfold opWrite; spec_walk good_quiet
-theorem opChmod_quiet (p : Bytes) (m : Nat) : Quiet (opChmod p m) := by unfold opChmod; spec_walk good_quiet
+theorem opChmod_quiet (p : Bytes) (m : Nat) : Quiet (opChmod p m) :=
+  Spec.opChmod p m (fun _ => Quiet.doOp _) (fun _ => QR.of_eq rfl rfl)
 theorem opRename_quiet (a b : Bytes) : Quiet (opRename a b) := by unfold opRename; spec_walk good_quiet
 
 macro_rules | `(tactic| spec_leaf $_) => `(tactic| with_reducible first
@@ -938,6 +1176,8 @@ theorem makeBackupFor_spec {R E} (g : Good R E) (o : Options) (p : Bytes)
     rw [makeBackupFor_run] at h
     split at h
     · cases h; exact g.refl s
+    split at h
+    · cases h; exact g.refl s
     · split at h
       · next _ s1 h0' =>
         have r1 := g.trans (hb s _) (h0.ok _ _ _ h0')
@@ -951,6 +1191,8 @@ theorem makeBackupFor_spec {R E} (g : Good R E) (o : Options) (p : Bytes)
       · cases h
   · intro s e s' h
     rw [makeBackupFor_run] at h
+    split at h
+    · cases h
     split at h
     · cases h
     · split at h
@@ -1550,10 +1792,11 @@ theorem makeWritable_shape (perm : PermResult) (p : Bytes) {s s1 : DState} {r : 
   dsimp only at h
   split at h
   · split at h
-    · rw [run_opChmod] at h
-      rcases doOp_cases h with ⟨rfl, fs', _, rfl⟩ | ⟨rfl, rfl⟩
-      · exact ⟨rfl, rfl, [_], rfl, Or.inr ⟨_, rfl⟩, fun e he => by cases he⟩
-      · exact ⟨rfl, rfl, [], by simp, Or.inl rfl, fun e he => by cases he; exact ⟨rfl, rfl⟩⟩
+    · rcases opChmod_cases h with h | ⟨rfl, rfl, -, -⟩
+      · rcases doOp_cases h with ⟨rfl, fs', _, rfl⟩ | ⟨rfl, rfl⟩
+        · exact ⟨rfl, rfl, [_], rfl, Or.inr ⟨_, rfl⟩, fun e he => by cases he⟩
+        · exact ⟨rfl, rfl, [], by simp, Or.inl rfl, fun e he => by cases he; exact ⟨rfl, rfl⟩⟩
+      · exact ⟨rfl, rfl, [], by simp, Or.inl rfl, fun e he => by cases he⟩
     · cases h; exact ⟨rfl, rfl, [], by simp, Or.inl rfl, fun e he => by cases he⟩
   · cases h; exact ⟨rfl, rfl, [], by simp, Or.inl rfl, fun e he => by cases he⟩
 
@@ -1570,23 +1813,30 @@ theorem backupStep_shape (o : Options) (sb : Bool) (p : Bytes) {s s1 : DState} {
     s1.cwd = s.cwd ∧ ∃ M B, s1.trace = s.trace ++ M ++ B ∧
       (∀ op ∈ M, ∃ d ∈ dirPrefixes (backupName o p), op = FsOp.mkdir (absPath s d)) ∧
       BackupOps (absPath s p) (absPath s (backupName o p)) B ∧
-      (sb = true → s.backedUp.contains (backupName o p) = false → r = .ok () →
+      (sb = true → notFileAt s p = false → s.backedUp.contains (backupName o p) = false → r = .ok () →
         B ≠ [] ∧ B ≠ [FsOp.unlink (absPath s (backupName o p))]) ∧
-      (sb = false ∨ s.backedUp.contains (backupName o p) = true → M = [] ∧ B = []) ∧
+      (sb = false ∨ s.backedUp.contains (backupName o p) = true ∨ notFileAt s p = true → M = [] ∧ B = []) ∧
       (∀ e, r = .error e → e = .systemError ∧ (B = [] ∨ B = [FsOp.unlink (absPath s (backupName o p))])) := by
   split at h
   · next hsb =>
     rw [makeBackupFor_run] at h
     split at h
+    · next hnf =>
+      cases h
+      exact ⟨rfl, [], [], by simp, by simp, Or.inl rfl, fun _ hn => (by rw [hnf] at hn; cases hn), fun _ => ⟨rfl, rfl⟩,
+        fun e he => by cases he⟩
+    next hnf =>
+    split at h
     · next hc =>
       cases h
-      exact ⟨rfl, [], [], by simp, by simp, Or.inl rfl, fun _ hn => (by rw [hc] at hn; cases hn), fun _ => ⟨rfl, rfl⟩,
+      exact ⟨rfl, [], [], by simp, by simp, Or.inl rfl, fun _ _ hn => (by rw [hc] at hn; cases hn), fun _ => ⟨rfl, rfl⟩,
         fun e he => by cases he⟩
     · next hc =>
-      have hc' : ¬ (sb = false ∨ s.backedUp.contains (backupName o p) = true) := by
-        rintro (h | h)
+      have hc' : ¬ (sb = false ∨ s.backedUp.contains (backupName o p) = true ∨ notFileAt s p = true) := by
+        rintro (h | h | h)
         · rw [hsb] at h; cases h
         · exact hc h
+        · exact hnf h
       split at h
       · next _ s2 h0 =>
         obtain ⟨⟨fs', t, n, rfl⟩, ⟨M, tM, hM⟩, -⟩ := ensureParentDirs_shape _ h0
@@ -1594,9 +1844,9 @@ theorem backupStep_shape (o : Options) (sb : Bool) (p : Bytes) {s s1 : DState} {
         have hM : ∀ op ∈ M, ∃ d ∈ dirPrefixes (backupName o p), op = FsOp.mkdir (absPath s d) := hM
         split at h
         · rcases doOp_cases h with ⟨rfl, fs2, _, rfl⟩ | ⟨rfl, rfl⟩
-          · exact ⟨rfl, M, [_], by show t ++ _ = _; rw [tM]; rfl, hM, Or.inr (Or.inl rfl), fun _ _ _ => ⟨by simp, by simp⟩,
+          · exact ⟨rfl, M, [_], by show t ++ _ = _; rw [tM]; rfl, hM, Or.inr (Or.inl rfl), fun _ _ _ _ => ⟨by simp, by simp⟩,
               fun h => absurd h hc', fun e he => by cases he⟩
-          · exact ⟨rfl, M, [], by show t = _; rw [tM]; simp, hM, Or.inl rfl, fun _ _ he => (by cases he), fun h => absurd h hc',
+          · exact ⟨rfl, M, [], by show t = _; rw [tM]; simp, hM, Or.inl rfl, fun _ _ _ he => (by cases he), fun h => absurd h hc',
               fun e he => by cases he; exact ⟨rfl, Or.inl rfl⟩⟩
         · split at h
           · split at h
@@ -1605,28 +1855,28 @@ theorem backupStep_shape (o : Options) (sb : Bool) (p : Bytes) {s s1 : DState} {
               · rcases doOp_cases h with ⟨rfl, fs3, _, rfl⟩ | ⟨rfl, rfl⟩
                 · exact ⟨rfl, M, [FsOp.unlink (absPath s (backupName o p)), FsOp.creat (absPath s (backupName o p))],
                     by show t ++ [_] ++ [_] = _; rw [tM]; simp only [List.append_assoc]; rfl, hM, Or.inr (Or.inr (Or.inr (Or.inr rfl))),
-                    fun _ _ _ => ⟨by simp, by simp⟩, fun h => absurd h hc', fun e he => by cases he⟩
+                    fun _ _ _ _ => ⟨by simp, by simp⟩, fun h => absurd h hc', fun e he => by cases he⟩
                 · exact ⟨rfl, M, [_], by show t ++ _ = _; rw [tM]; rfl, hM, Or.inr (Or.inr (Or.inr (Or.inl rfl))),
-                    fun _ _ he => (by cases he), fun h => absurd h hc', fun e he => by cases he; exact ⟨rfl, Or.inr rfl⟩⟩
+                    fun _ _ _ he => (by cases he), fun h => absurd h hc', fun e he => by cases he; exact ⟨rfl, Or.inr rfl⟩⟩
               · cases hu'
             · next e s3 hu =>
               cases h
               rcases doOp_cases hu with ⟨hu', _⟩ | ⟨hu', rfl⟩
               · cases hu'
               · cases hu'
-                exact ⟨rfl, M, [], by show t = _; rw [tM]; simp, hM, Or.inl rfl, fun _ _ he => (by cases he),
+                exact ⟨rfl, M, [], by show t = _; rw [tM]; simp, hM, Or.inl rfl, fun _ _ _ he => (by cases he),
                   fun h => absurd h hc', fun e he => by cases he; exact ⟨rfl, Or.inl rfl⟩⟩
           · rcases doOp_cases h with ⟨rfl, fs2, _, rfl⟩ | ⟨rfl, rfl⟩
-            · exact ⟨rfl, M, [_], by show t ++ _ = _; rw [tM]; rfl, hM, Or.inr (Or.inr (Or.inl rfl)), fun _ _ _ => ⟨by simp, by simp⟩,
+            · exact ⟨rfl, M, [_], by show t ++ _ = _; rw [tM]; rfl, hM, Or.inr (Or.inr (Or.inl rfl)), fun _ _ _ _ => ⟨by simp, by simp⟩,
                 fun h => absurd h hc', fun e he => by cases he⟩
-            · exact ⟨rfl, M, [], by show t = _; rw [tM]; simp, hM, Or.inl rfl, fun _ _ he => (by cases he), fun h => absurd h hc',
+            · exact ⟨rfl, M, [], by show t = _; rw [tM]; simp, hM, Or.inl rfl, fun _ _ _ he => (by cases he), fun h => absurd h hc',
                 fun e he => by cases he; exact ⟨rfl, Or.inl rfl⟩⟩
       · next e s2 h0 =>
         cases h
         obtain ⟨⟨fs', t, n, rfl⟩, ⟨M, tM, hM⟩, herr, -⟩ := ensureParentDirs_shape _ h0
         have tM : t = s.trace ++ M := tM
         have hM : ∀ op ∈ M, ∃ d ∈ dirPrefixes (backupName o p), op = FsOp.mkdir (absPath s d) := hM
-        exact ⟨rfl, M, [], by show t = _; rw [tM]; simp, hM, Or.inl rfl, fun _ _ he => (by cases he), fun h => absurd h hc',
+        exact ⟨rfl, M, [], by show t = _; rw [tM]; simp, hM, Or.inl rfl, fun _ _ _ he => (by cases he), fun h => absurd h hc',
           fun e' he => by cases he; exact ⟨herr _ rfl, Or.inl rfl⟩⟩
   · next hsb =>
     cases h
@@ -1667,10 +1917,11 @@ theorem permissionCallback_shape (nm : Nat) (perm : PermResult) (p : Bytes) {s s
   have key : ∀ m, (opChmod p m).run s = (r, s1) → s1.cwd = s.cwd ∧ ∃ C, s1.trace = s.trace ++ C ∧
       (C = [] ∨ ∃ m, C = [FsOp.chmod (absPath s p) m]) ∧ (∀ e, r = .error e → e = .systemError) := by
     intro m h
-    rw [run_opChmod] at h
-    rcases doOp_cases h with ⟨rfl, fs', _, rfl⟩ | ⟨rfl, rfl⟩
-    · exact ⟨rfl, [_], rfl, Or.inr ⟨_, rfl⟩, fun e he => by cases he⟩
-    · exact ⟨rfl, [], by simp, Or.inl rfl, fun e he => by cases he; rfl⟩
+    rcases opChmod_cases h with h | ⟨rfl, rfl, -, -⟩
+    · rcases doOp_cases h with ⟨rfl, fs', _, rfl⟩ | ⟨rfl, rfl⟩
+      · exact ⟨rfl, [_], rfl, Or.inr ⟨_, rfl⟩, fun e he => by cases he⟩
+      · exact ⟨rfl, [], by simp, Or.inl rfl, fun e he => by cases he; rfl⟩
+    · exact ⟨rfl, [], by simp, Or.inl rfl, fun e he => by cases he⟩
   unfold permissionCallback at h
   split at h
   · exact key _ h
@@ -1687,9 +1938,9 @@ theorem writeNow_shape (o : Options) (out : Bytes) (perm : PermResult) (sb : Boo
       (W = [] ∨ ∃ m, W = [FsOp.chmod (absPath s out) m]) ∧
       (C = [] ∨ ∃ C', C = FsOp.creat (absPath s out) :: C' ∧
         ∀ op ∈ C', (∃ b, op = FsOp.write (absPath s out) b) ∨ ∃ m, op = FsOp.chmod (absPath s out) m) ∧
-      (sb = true → s.backedUp.contains (backupName o out) = false →
+      (sb = true → notFileAt s out = false → s.backedUp.contains (backupName o out) = false →
         B = [] ∨ B = [FsOp.unlink (absPath s (backupName o out))] → W = [] ∧ C = []) ∧
-      (sb = false ∨ s.backedUp.contains (backupName o out) = true → M = [] ∧ B = []) ∧
+      (sb = false ∨ s.backedUp.contains (backupName o out) = true ∨ notFileAt s out = true → M = [] ∧ B = []) ∧
       (r = .ok () → C ≠ []) ∧ (∀ e, r = .error e → e = .systemError) := by
   unfold writeNow at h
   rw [run_bind] at h
@@ -1720,10 +1971,10 @@ theorem writeNow_shape (o : Options) (out : Bytes) (perm : PermResult) (sb : Boo
             · rcases hC2 with rfl | ⟨m, rfl⟩
               · cases h
               · rw [List.mem_singleton.1 h]; exact Or.inr ⟨m, rfl⟩
-        · intro hsb hn hb
+        · intro hsb hnf hn hb
           rcases hb with hb | hb
-          · exact absurd hb (hB1 hsb hn rfl).1
-          · exact absurd hb (hB1 hsb hn rfl).2
+          · exact absurd hb (hB1 hsb hnf hn rfl).1
+          · exact absurd hb (hB1 hsb hnf hn rfl).2
         · intro _ hc
           exact hne (List.append_eq_nil_iff.1 hc).1
       · next e s3 h3 =>
@@ -1736,10 +1987,10 @@ theorem writeNow_shape (o : Options) (out : Bytes) (perm : PermResult) (sb : Boo
         · rcases hC1 with h | ⟨C', rfl, hC'⟩
           · exact Or.inl h
           · exact Or.inr ⟨C', rfl, fun op hop => Or.inl (hC' op hop)⟩
-        · intro hsb hn hb
+        · intro hsb hnf hn hb
           rcases hb with hb | hb
-          · exact absurd hb (hB1 hsb hn rfl).1
-          · exact absurd hb (hB1 hsb hn rfl).2
+          · exact absurd hb (hB1 hsb hnf hn rfl).1
+          · exact absurd hb (hB1 hsb hnf hn rfl).2
     · next e s2 h2 =>
       cases h
       obtain ⟨c2, -, W, t2, hW, herr⟩ := makeWritable_shape _ _ h2
@@ -1747,14 +1998,14 @@ theorem writeNow_shape (o : Options) (out : Bytes) (perm : PermResult) (sb : Boo
       refine ⟨c2.trans c1, M, B, W, [], ?_, hM, hB, hW, Or.inl rfl, ?_, hB2, fun he => (by cases he),
         fun e he => (by cases he; exact (herr _ rfl).1)⟩
       · rw [t2, t1]; simp
-      · intro hsb hn hb
+      · intro hsb hnf hn hb
         rcases hb with hb | hb
-        · exact absurd hb (hB1 hsb hn rfl).1
-        · exact absurd hb (hB1 hsb hn rfl).2
+        · exact absurd hb (hB1 hsb hnf hn rfl).1
+        · exact absurd hb (hB1 hsb hnf hn rfl).2
   · next e s1 h1 =>
     cases h
     obtain ⟨c1, M, B, t1, hM, hB, -, hB2, herr⟩ := backupStep_shape _ _ _ h1
-    refine ⟨c1, M, B, [], [], ?_, hM, hB, Or.inl rfl, Or.inl rfl, fun _ _ _ => ⟨rfl, rfl⟩, hB2, fun he => (by cases he),
+    refine ⟨c1, M, B, [], [], ?_, hM, hB, Or.inl rfl, Or.inl rfl, fun _ _ _ _ => ⟨rfl, rfl⟩, hB2, fun he => (by cases he),
       fun e he => (by cases he; exact (herr _ rfl).1)⟩
     rw [t1]; simp
 
